@@ -6,7 +6,7 @@ state back (pi).  One projection function is used by both binding directions.
 """
 import json
 
-from harness.common import use_repo
+from harness.common import use_repo, MachineryError
 
 use_repo()
 from metapype.model.node import Node, Shift  # noqa: E402
@@ -94,8 +94,10 @@ class World:
         return self.track(Node(name))
 
     @classmethod
-    def build(cls, state, **kw):
-        """Constructively build real objects matching an abstract state (no dict aliasing)."""
+    def build(cls, state, ns_via_api=False, **kw):
+        """Constructively build real objects matching an abstract state.
+        ns_via_api: establish namespace maps through add_namespace (realistic dict aliasing
+        between parents and children) instead of assigning fresh dicts."""
         w = cls(**kw)
         n = len(state["kids"])
         names = state.get("name") or ["a"] * n
@@ -117,7 +119,23 @@ class World:
         for i in range(n):
             for c in state["kids"][i]:
                 w.n(i + 1).add_child(w.n(c))
-        if "ns" in state:
+        if "ns" in state and ns_via_api:
+            listed = {c for ks in state["kids"] for c in ks}
+
+            def declare(i):
+                for q, u in sorted(map(tuple, state["ns"][i - 1])):
+                    if w.n(i).nsmap.get(q) != u:
+                        w.n(i).add_namespace(q, u)
+                for c in state["kids"][i - 1]:
+                    declare(c)
+            for i in range(1, n + 1):
+                if i not in listed:
+                    declare(i)
+            got = w.pi(("ns",))["ns"]
+            want = [sorted(list(map(list, m))) for m in state["ns"]]
+            if got != want:
+                raise MachineryError(f"cannot establish namespace maps through the API: want {want} got {got}")
+        elif "ns" in state:
             for i in range(n):
                 w.n(i + 1).nsmap = {q: u for q, u in state["ns"][i]}
         if "store" in state:
